@@ -229,11 +229,11 @@ def correspond(ctx, corr):
                     mp.add_type(short_address=sa, instance_number=inum, instance_type=t)
                     known[(sa, inum)] = t
     mans = cc.run_model("m_cmd", mlines)
-    for line, (got, known), want in zip(mlines, mgot, mans):
-        if got != want:
+    for line, (got, known), mwant in zip(mlines, mgot, mans):
+        if got != mwant:
             corr.violate("decode:order", {"request": line, "mapper": "one mapper object, asked about other / the same "
                                           "instances before and taught in between", "map now": cc.map_tok(known)},
-                         want, got, "decoding depends on what the mapper was asked before")
+                         mwant, got, "decoding depends on what the mapper was asked before")
     corr.count("purity_one_mapper", len(mlines))
     snap1 = registry_snapshot()
     if snap0 != snap1:
